@@ -240,6 +240,9 @@ def run_unit(unit, repo, verif, tier='quick', canary=True, workdir=None):
             loc_lines = e['lines'][-1:] if e['kind'] == 'precondition' else e['lines'][:1]
             if any(a <= l <= b for l in loc_lines for (a, b) in info.get('hint_spans', [])):
                 e['kind'] = 'assertion'
+            # a loop invariant that the template marks `//@loop n contract` states the property itself (e.g. the certificate under which a row may be dropped)
+            if e['kind'] == 'invariant' and any(a <= l <= b for l in e['lines'] for (a, b) in info.get('contract_inv_spans', [])):
+                e['kind'] = 'postcondition'
             out.append(e)
         res['errors'] = out
         res['status'] = 'violation'
